@@ -95,8 +95,15 @@ class Executor(Engine):
         if isinstance(v, ast.Call) and isinstance(v.func, ast.Attribute):
             if v.func.attr in MUTATORS:
                 return self.do_mutation(v, st, s.lineno)
-            if ast.unparse(v.func) == 'warnings.warn':
-                return [(st, None)]
+            if ast.unparse(v.func) in ('warnings.warn', 'super().__init__'):
+                # dropped by extraction: warnings; the base-class initialiser of an exception (stores the message)
+                results = []
+                ctx = self.new_ctx(st, s.lineno)
+                for a_ in v.args:
+                    if not isinstance(a_, ast.Starred):
+                        self.ev.ev(a_, ctx)
+                st2 = self.commit(st, ctx, results)
+                return results + [(st2, None)]
         results = []
         ctx = self.new_ctx(st, s.lineno)
         self.ev.ev(v, ctx)
@@ -700,8 +707,14 @@ class Executor(Engine):
             raise OutOfSubset(f'{qual} is a generator; contract `returns` must be Bag[..]')
         # parameters
         argnames = [a.arg for a in fnode.args.args]
-        if fnode.args.vararg or fnode.args.kwarg or fnode.args.kwonlyargs:
-            raise OutOfSubset('*args/**kwargs parameters')
+        if fnode.args.kwarg or fnode.args.kwonlyargs:
+            raise OutOfSubset('**kwargs / keyword-only parameters')
+        if fnode.args.vararg:
+            # *args is accepted only if the body merely forwards it to super().__init__ (dropped by extraction, see st_Expr)
+            uses = [n for n in _preorder(fnode) if isinstance(n, ast.Name) and n.id == fnode.args.vararg.arg]
+            fw = [n for n in _preorder(fnode) if isinstance(n, ast.Call) and ast.unparse(n.func) == 'super().__init__']
+            if len(uses) != sum(1 for c_ in fw for a_ in c_.args if isinstance(a_, ast.Starred)):
+                raise OutOfSubset('*args used other than forwarded to super().__init__')
         missing = [a for a in argnames if a not in c.params and a != 'self' and a not in c.d.get('specialize', {})]
         if missing:
             raise ContractOutOfDate(f'{qual}: parameters {missing} have no type in the contract')
